@@ -1087,6 +1087,9 @@ func ext۰time۰Time۰UnixNano(fr *frame, a []value) value {
 func init() {
 	externals["google.golang.org/protobuf/proto.Marshal"] = ext۰proto۰Marshal
 	externals["google.golang.org/protobuf/proto.Unmarshal"] = ext۰proto۰Unmarshal
+	// encoding/json of whole messages: identity token (what JSON loses is outside the claims that use it)
+	externals["encoding/json.Marshal"] = ext۰proto۰Marshal
+	externals["encoding/json.Unmarshal"] = ext۰proto۰Unmarshal
 	externals["(*sync.Map).Store"] = ext۰syncMap۰Store
 	externals["(*sync.Map).Load"] = ext۰syncMap۰Load
 	externals["(*sync.Map).Delete"] = ext۰syncMap۰Delete
